@@ -11,7 +11,6 @@ import (
 	"os"
 	"testing"
 
-	"github.com/New-JAMneration/JAM-Protocol/internal/blockchain"
 	"github.com/New-JAMneration/JAM-Protocol/internal/types"
 )
 
@@ -24,9 +23,7 @@ func TestVerif_C22_Real(t *testing.T) {
 	var first c22Obs
 	for it := 0; it < 60; it++ {
 		types.MaxWorkers = []int{1, 2, 32}[it%3]
-		blockchain.ResetInstance()
-		out, err := OuterAccumulation(c22Build(3, 7))
-		obs := c22Observe(out, err)
+		obs := c22Accumulate(3, 7)
 		if it == 0 {
 			first = obs
 		}
